@@ -185,7 +185,12 @@ def _yleg(task, spec):
 
 def _uleg(task, spec):
     uref, cj = spec[0], spec[1]
-    u = task.universe[uref] if isinstance(uref, int) else task.extra_ulegs[uref]
+    if isinstance(uref, int):
+        u = task.universe[uref]
+    elif isinstance(uref, dict):       # inline description of a leg created by an op (add_leg, mask, svd)
+        u = ULeg.from_json(task.sym, uref)
+    else:
+        u = task.extra_ulegs[uref]
     return u.conj() if cj else u
 
 
@@ -193,10 +198,10 @@ def _dt(task, rec):
     return rec["args"].get("dtype", "float64")
 
 
-def tensors(task, pred=None):
+def tensors(task, pred=None, allow_bool=False):
     out = []
     for s, v in task.slots.items():
-        if isinstance(v, yastn.Tensor) and (pred is None or pred(s, v, task.shadows.get(s))):
+        if isinstance(v, yastn.Tensor) and (allow_bool or v.yastn_dtype != "bool") and (pred is None or pred(s, v, task.shadows.get(s))):
             out.append(s)
     return out
 
@@ -394,9 +399,9 @@ def find_uref(task, u):
             return (i, 1)
     for name, U in task.extra_ulegs.items():
         if U.key() == u.key():
-            return (name, 0)
+            return (U.to_json(), 0)
         if U.conj().key() == u.key():
-            return (name, 1)
+            return (U.to_json(), 1)
     return None
 
 
